@@ -14,11 +14,18 @@ of projections, attribution.  Proved for every master, every split and every ord
   that every element is in at least one of the files) — nothing lost, nothing invented;
 * `C09_order_irrelevant`: membership in the union does not depend on the order of the files;
 * `C09_attribution`: the files whose projection contains an element are exactly the element's file set.
-The positional merge algorithm of `autosarmodel.rs` (`merge_element`, `calc_*_merge`, `import_new_items`) has
-no Lean model; it is compared with this specification on the real library by the merge scenario (random
-masters, all splits at splittable points, ALL load orders, per-file reload) — partial.  Known findings `c09:*`.
+The positional merge algorithm of `autosarmodel.rs` (`merge_element`, `calc_identifiables_merge`, `calc_element_merge`,
+`import_new_items`, `merge_sub_elements`) is modelled in `Model/Merge.lean` and, together with the parser model, answers the
+`load` requests of EVERY load order of the merge scenario (tree with local file sets, index, reference map after every
+load, then the sorted model) — compared with the library on every run, the known findings `c09:*` included (the model
+reproduces them).  Proved about that model, for all trees:
+* `C09_merge_loses_nothing`: every element that is in the content of a model element before a merge is in it afterwards —
+  whether the merge succeeds or stops with an error half way.
+That the merged model IS the union, the attribution and the independence of the load order are decided by the oracle
+of the merge scenario (random masters, all splits at splittable points, ALL load orders, per-file reload) — partial.
 -/
 import AutosarVerif.Lemmas.Files
+import AutosarVerif.Lemmas.Merge
 
 namespace AV.C09
 
@@ -62,5 +69,10 @@ theorem C09_attribution (master : List El) (e : El) (he : e ∈ master) (f : Nat
 def m : List El := [⟨10, [1, 2]⟩, ⟨11, [1]⟩, ⟨12, [2]⟩]
 example : project m 1 = [⟨10, [1, 2]⟩, ⟨11, [1]⟩] := by decide
 example : (unionOf m [2, 1]).length = 4 ∧ ⟨11, [1]⟩ ∈ unionOf m [2, 1] := by decide
+
+theorem C09_merge_loses_nothing (S : Spec) (V : W.Env) (fver : Nat → Option Nat) (newFile minVerB fuel : Nat)
+    (ha : W.Hdr) (ka : W.Items) (files : List Nat) (kb : W.Items) (x : Nat) (hx : x ∈ ka.ids) :
+    x ∈ (W.mergeElement S V fver newFile minVerB fuel ha ka files kb).1.ids :=
+  W.mergeElement_keeps S V fver newFile minVerB fuel ha ka files kb x hx
 
 end AV.C09
